@@ -54,6 +54,7 @@ func (s *stream) leave() {
 	if !s.isAttached {
 		logger.Panicf("why detach? stream isn't attached")
 	}
+	verifTrace("s.leave", uint64(s.streamID), verifStreamKey(s))
 	s.isDetaching = true
 	s.tryDetach()
 }
@@ -67,6 +68,7 @@ func (s *stream) commit(event *Event) {
 		return
 	}
 	s.commitSeq.Store(event.SeqID)
+	verifTrace("s.commit", uint64(event.Offset), event.SeqID)
 
 	if s.isDetaching {
 		s.tryDetach()
@@ -79,6 +81,7 @@ func (s *stream) tryDetach() {
 		return
 	}
 
+	verifTrace("s.detach", uint64(s.streamID), verifStreamKey(s))
 	s.isAttached = false
 	s.isDetaching = false
 
@@ -99,6 +102,7 @@ func (s *stream) attach() {
 		logger.Panicf("why attach? stream is empty")
 	}
 
+	verifTrace("s.attach", uint64(s.streamID), verifStreamKey(s))
 	s.isAttached = true
 	s.mu.Unlock()
 }
@@ -111,6 +115,7 @@ func (s *stream) put(event *Event) uint64 {
 	event.stream = s
 	event.stage = eventStageStream
 	event.SeqID = seqID
+	verifTrace("s.put", uint64(event.Offset), seqID)
 	if s.first == nil {
 		s.last = event
 		s.first = event
@@ -183,6 +188,7 @@ func (s *stream) tryUnblock() bool {
 	}
 
 	timeoutEvent := newTimeoutEvent(s)
+	verifTrace("s.timeout", uint64(s.streamID), verifStreamKey(s))
 	s.last = timeoutEvent
 	s.first = timeoutEvent
 
@@ -207,6 +213,7 @@ func (s *stream) get() *Event {
 
 	if event != nil {
 		s.awaySeq = event.SeqID
+		verifTrace("s.get", uint64(event.Offset), event.SeqID)
 		event.stage = eventStageProcessor
 		s.len--
 	}
